@@ -85,12 +85,23 @@ class BuckGophermapHandler(BaseHandler):
                     if entry.gethost() is None and entry.getport() is None:
                         # If we're using links on THIS server, try to fill
                         # it in for gopher+.
-                        if self.vfs.exists(selector):
+                        # Only look at the filesystem for selectors that
+                        # a request for them would be allowed to reach.
+                        if self.islocalselectorsecure(selector) and self.vfs.exists(
+                            selector
+                        ):
                             entry.populatefromvfs(self.vfs, selector)
                     self.entries.append(entry)
                 else:  # Info line
                     line = line.strip()
                     self.entries.append(gopherentry.getinfoentry(line, self.config))
+
+    def islocalselectorsecure(self, selector):
+        """Apply the request security check to a selector authored in the
+        gophermap, so that it can not make us read outside of the root."""
+        return BaseHandler(
+            selector, self.searchrequest, self.protocol, self.config, None, self.vfs
+        ).isrequestsecure()
 
     def isdir(self):
         return True
